@@ -52,7 +52,9 @@ def strategy(tier):
             case["text"] = X.render_model(model)
             states = X.state_names(model)
         elif kind == "ill-formed":
-            case["text"] = draw(st.sampled_from(["states(x=1)\na = 1\na = 3\ndx_dt = a\n", "states(x=1, y=2)\ndx_dt = -x\n", "states(x=1)\ndx_dt = -x + undefined_zz\n", "states(x=1)\nparameters(x=1)\ndx_dt = -x\n"]))
+            case["text"] = draw(st.sampled_from(["states(x=1)\na = 1\na = 3\ndx_dt = a\n", "states(x=1, y=2)\ndx_dt = -x\n", "states(x=1)\ndx_dt = -x + undefined_zz\n", "states(x=1)\nparameters(x=1)\ndx_dt = -x\n",
+                # accepted by the loader, refused by the code generators (dependency cycle)
+                "states(x=1)\nparameters(a=2)\nu = v + 1\nv = u*a\ndx_dt = -x + u\n", "states(x=1)\nw = w + 1\ndx_dt = -x*w\n"]))
             states = ["x"]
         else:
             case["text"] = draw(st.sampled_from(["states(x=1\ndx_dt = -x\n", "states(x=1)\ndx_dt = -x +* 2\n", "this is not a model\n"]))
